@@ -184,6 +184,35 @@ pub fn run_c11_case(case: &MergeCase, c: &mut Counters, work: &std::path::Path) 
         }
     }
     if let Some(p) = &o.panic {
+        // as-if: do the same additions with public calls on the twin; if they panic as well the
+        // defect is not merge's
+        let t = &mut twin;
+        let hm_ref = &hm;
+        let r = crate::rec::guarded(|| {
+            fn rec(t: &mut Box<dyn crate::shim::Graph>, h: &Model, l: usize, r: usize) {
+                let hv = &h.verts[&r];
+                if let Some(d) = &hv.data {
+                    t.put(l, &sodg::Hex::from_vec(d.clone()));
+                }
+                for (a, to) in &hv.edges {
+                    let m = match t.kid(l, *a) {
+                        Some(x) => x,
+                        None => {
+                            let id = t.next_id();
+                            t.add(id);
+                            t.bind(l, id, *a);
+                            id
+                        }
+                    };
+                    rec(t, h, m, *to);
+                }
+            }
+            rec(t, hm_ref, *left, *right);
+        });
+        if r.is_err() {
+            c.inc("c11.merge-and-reference-calls-both-panic(skipped)");
+            return (None, false, s.ops);
+        }
         return (Some(format!("merge of two trees within the limits panicked: {p}")), false, s.ops);
     }
     if let Ret::Res(Err(e)) = &o.ret {
@@ -447,6 +476,71 @@ fn gen_c11_case(seed: u64, thorough: bool) -> MergeCase {
     MergeCase { n, cap, g_ops, merge: Op::Merge { h, left, right: hids[0] }, seed: rng.next() }
 }
 
+/// Big trees (17..30 vertices): more vertices than one group can hold, so they must be assembled
+/// from sub-trees that became groups on their own and are linked under a common root afterwards
+/// (a bind between two grouped vertices moves nobody). The left graph holds the same shape on
+/// other ids, minus a few leaves, so that the merge stays within the group limits.
+fn gen_big_case(seed: u64) -> MergeCase {
+    let mut rng = Rng::new(seed);
+    let n = *rng.pick(&[4usize, 8, 16]);
+    let cap = *rng.pick(&[80usize, 128, 256]);
+    let subs = rng.range(3, n.min(4));
+    let labels: Vec<Label> = (0..8).map(Label::Alpha).collect();
+    // shape: sub-tree i is a chain/star of size_i vertices
+    let sizes: Vec<usize> = (0..subs).map(|_| rng.range(5, 7)).collect();
+    let shapes: Vec<Vec<usize>> = sizes.iter().map(|k| random_parent(&mut rng, *k, 3.min(n))).collect();
+    let build = |rng: &mut Rng, base: usize, drop_leaves: usize, with_data: bool| -> (Vec<Op>, usize) {
+        let mut ops = vec![];
+        let mut next = base;
+        let mut roots = vec![];
+        let mut dropped = 0;
+        for (si, shape) in shapes.iter().enumerate() {
+            let k = shape.len();
+            let ids: Vec<usize> = (0..k).map(|i| next + i).collect();
+            next += k;
+            // leaves of this sub-tree
+            let is_leaf: Vec<bool> = (0..k).map(|i| !shape.iter().skip(1).any(|p| *p == i) && i != 0).collect();
+            let mut skip = vec![false; k];
+            for i in (1..k).rev() {
+                if is_leaf[i] && dropped < drop_leaves && si % 2 == 0 {
+                    skip[i] = true;
+                    dropped += 1;
+                    break;
+                }
+            }
+            let mut nchild = vec![0usize; k];
+            ops.push(Op::Add(ids[0]));
+            for i in 1..k {
+                let p = shape[i];
+                let l = labels[nchild[p] % labels.len()];
+                nchild[p] += 1;
+                if skip[i] {
+                    continue;
+                }
+                ops.push(Op::Add(ids[i]));
+                ops.push(Op::Bind(ids[p], ids[i], l));
+            }
+            if with_data {
+                for i in 0..k {
+                    if !skip[i] && rng.chance(1, 3) {
+                        ops.push(Op::Put(ids[i], HexSpec::Canon(vec![si as u8, i as u8, 9, 9, 9, 9, 9, 9, 9, 9])));
+                    }
+                }
+            }
+            roots.push(ids[0]);
+        }
+        let root = next;
+        ops.push(Op::Add(root));
+        for (i, r) in roots.iter().enumerate() {
+            ops.push(Op::Bind(root, *r, labels[(i + 4) % labels.len()]));
+        }
+        (ops, root)
+    };
+    let (g_ops, left) = build(&mut rng, 0, 2, true);
+    let (h, right) = build(&mut rng, 40, 0, true);
+    MergeCase { n, cap, g_ops, merge: Op::Merge { h, left, right }, seed: rng.next() }
+}
+
 fn random_parent(rng: &mut Rng, k: usize, n: usize) -> Vec<usize> {
     let mut parent = vec![0usize; k];
     let mut deg = vec![0usize; k];
@@ -543,6 +637,28 @@ pub fn run_c11(cfg: &ShardCfg, out: &mut ShardOut) {
         }
     }
     out.extra = J::obj().with("sweep", J::s(&format!("all ordered trees: left <= {gmax} vertices x every left vertex, right <= {hmax} vertices x all data placements over none/inline/heap (+ zero-length, + already-read heap for right trees <= 3 vertices)")));
+    // part 1b: big trees spanning several groups (more than 16 vertices in the right tree)
+    for j in 0..(cfg.count / 20).max(8) {
+        if out.out_of_time(cfg) {
+            break;
+        }
+        let case = gen_big_case(mix(&[cfg.seed, cfg.shard, j as u64, 1111]));
+        let mut stray = crate::json::Counters::default();
+        let Some((v, nt, ops)) = crate::shard::case_guard(&mut stray, || run_c11_case(&case, &mut out.counters, &cfg.work)) else {
+            out.counters.inc("case.abandoned-by-stray-panic-from-code-under-test");
+            continue;
+        };
+        out.evaluations += 1;
+        out.calls += ops.len() as u64;
+        out.counters.inc("c11.big-tree-cases");
+        if nt {
+            out.nontrivial.insert(crate::hist::ops_hash(case.n, case.cap, &ops));
+        }
+        if let Some(msg) = v {
+            report_c11(cfg, out, &case, msg, &ops, &format!("big{j}"));
+            return;
+        }
+    }
     // part 2: random larger trees with GC history
     for j in 0..cfg.count {
         if out.out_of_time(cfg) {
